@@ -74,10 +74,23 @@ def _subst_comprehension(e: ast.AST, mapname: str) -> bool:
     return isinstance(elt, ast.Call) and dotted(elt.func) == "sub_symbols" and len(elt.args) == 2 and norm(elt.args[0]) == norm(g.target) and norm(elt.args[1]) == mapname
 
 
+def _map_as_given(ctx, m, mapname):
+    """`bind` substitutes with the caller's map: the parameter is never re-bound to a processed copy (re-keyed by name, filtered,
+    sympified ...) -- `matrix.subs(map)` on the evaluated matrix uses the map as given, so a bind that first rewrites the map
+    substitutes something else for symbols the rewrite treats differently (assumptions, dummies, equal names)."""
+    if not mapname:
+        return
+    copies = {f"dict({mapname})", f"{mapname}.copy()", f"{{**{mapname}}}", f"{mapname} or {{}}", f"dict({mapname}.items())", f"copy({mapname})", f"copy.copy({mapname})"}
+    reb = [x for x in Defs(m.node).assign_stmts.get(mapname, []) if norm(getattr(x, "value", None)) not in copies]
+    ctx.check(not reb, R2, m.key + ":map-as-given", "the caller's map is used as given", f"{m.qualname} re-binds its map parameter `{mapname}` ({short(reb[0], 90) if reb else ''}) before substituting: symbols the rewritten map no longer holds under the caller's own key (symbols with assumptions, Dummy symbols, two symbols sharing a name) are left unbound or bound to another symbol's value, so binding differs from substituting the same map into the evaluated matrix", f"{m.module.relpath}:{reb[0].lineno}" if reb else m)
+
+
+
 def check_bind(ctx, ci, m):
     ctx.analysed(m)
     ps = positional_params(m.node)
     mapname = ps[1] if len(ps) > 1 else None
+    _map_as_given(ctx, m, mapname)
     cons = m.key
     if ci.name in REFUSING:
         cfg = cfg_of(m.node)
@@ -300,6 +313,7 @@ def check_circuit_bind(ctx):
     fi = repo.func(f"{CIR}:Circuit.bind")
     ctx.analysed(fi)
     mapname = positional_params(fi.node)[1]
+    _map_as_given(ctx, fi, mapname)
     calls = circuit_ctor_calls(repo, fi)
     ok = False
     if len(calls) == 1:
